@@ -32,8 +32,8 @@ TRUSTED = [
 ASSUMPTIONS = [
     "the composition theorems C03_*_partial hold on the sub-grammar delimited by the boolean side conditions in Properties/C03.v; "
     "outside it the agreement is decided by the oracle (Go against the extracted specification) on generated requirements",
-    "operator theorems exist for npm (>=, >, <, <=, ^ (every major), ~, = on full release versions, release candidates) and for Cargo (>=, <, ^, ~, =); and-composition (C03_and_partial) and ||-composition (C03_or_partial) for npm only. There are NO "
-    "operator theorems for PyPI and Maven, nor for partial versions, prerelease bounds, Cargo > and <=: there the property rests on the oracle and the correspondence run. "
+    "operator theorems exist for npm (>=, >, <, <=, ^ (every major), ~, = on full release versions, release candidates) and for Cargo (the same operators); and-composition (C03_and_partial) and ||-composition (C03_or_partial) for npm only. There are NO "
+    "operator theorems for PyPI and Maven, nor for partial versions and prerelease bounds: there the property rests on the oracle and the correspondence run. "
     "The share of generated requirements inside the region of the theorems is reported (region:* counters); a hit inside it is reported as a divergence",
     "candidates are limited as the property states: PyPI final releases with a non-zero release segment, Maven versions that are dotted numbers",
 ]
@@ -214,12 +214,12 @@ def collapsing_ast(rng, eco):
 
 
 def plain_ast(rng, eco):
-    """requirements in the region of the operator theorems: >=, <, ^, ~, = (npm: also no operator)
+    """requirements in the region of the operator theorems: >=, >, <, <=, ^, ~, = (npm: also no operator)
     on full release versions with small numbers; npm: 1-3 comparators per and-list, 1-3
     alternatives; Cargo: one comparator.  They are printed without textual variation."""
     def triple():
         return [rng.choice([0, 1, 1, 2, 3]), rng.choice([0, 0, 1, 2, 9]), rng.choice([0, 0, 1, 3])]
-    ops = [1, 3, 3, 4, 4, 6, 7] + ([0, 2, 5] if eco == "npm" else [])
+    ops = [1, 2, 3, 3, 4, 4, 5, 6, 7] + ([0] if eco == "npm" else [])
     if eco == "npm":
         return [[1, [[rng.choice(ops), triple() + [[]]] for _ in range(rng.choice([1, 2, 2, 3]))]] for _ in range(rng.choice([1, 1, 2, 3]))]
     return [[rng.choice(ops)] + triple() + [[]]]
@@ -412,8 +412,8 @@ def thm_comparator(eco, t):
     if op == b"<" and nums == [0, 0, 0]:
         return False
     if op in (b">", b"<="):
-        # C03_op_gt_sound / C03_op_le_sound: npm only; > needs patch + 1 below the value for infinity
-        return eco == "npm" and not (op == b">" and nums[2] >= FIN - 1)
+        # C03_op_gt_sound / C03_op_le_sound and their Cargo forms: > needs patch + 1 below the value for infinity
+        return not (op == b">" and nums[2] >= FIN - 1)
     return True
 
 
